@@ -580,8 +580,11 @@ def check(pid, tier, seed):
         for w in r['meta']['rewrites']:
             rewrites[w['rule']] = rewrites.get(w['rule'], 0) + 1
         gen_text = open(r['gen']).read()
+        # functions whose body is replaced here because they are PROVED in their home unit (rule A0) are not trusted: listed separately
+        a0 = set(f['fn'].split(' :: ')[-1] for f in r['meta']['functions'] if f['assumed'])
         for m in re.finditer(r'#\[verifier::external_body\]\s*(?:pub\s+)?(?:proof\s+)?fn\s+(\w+)', gen_text):
-            trusted.add('external_body: ' + m.group(1))
+            if m.group(1) not in a0:
+                trusted.add('external_body: ' + m.group(1))
         for m in re.finditer(r'assume_specification(?:<[^>]*>)?\s*\[\s*([^\]]+)\]', gen_text):
             trusted.add('assume_specification: ' + re.sub(r'\s+', '', m.group(1)))
         if re.search(r'\badmit\(\)|\bassume\(', re.sub(r'//.*', '', gen_text)):
